@@ -74,6 +74,24 @@ func verifSnapshot(u *verifU) *verifSnap {
 			}
 		}
 	}
+	// staking extension: every account's base-coin stake and waitlist entry with
+	// every candidate of the universe (a rejected transaction must leave them alone)
+	for k, pk := range u.cands {
+		for i := range u.addrs {
+			a := u.addrs[i]
+			who := verifWho(u, a) + "." + string(rune('P'+k))
+			v := u.st.Candidates.GetStakeValueOfAddress(pk, a, 0)
+			if v == nil {
+				v = big.NewInt(0)
+			}
+			add("stake."+who, "stake", &u.addrs[i], 0, v)
+			w := big.NewInt(0)
+			if it := u.st.Waitlist.Get(a, pk, 0); it != nil {
+				w = it.Value
+			}
+			add("waitlist."+who, "waitlist", &u.addrs[i], 0, w)
+		}
+	}
 	add("rewardpool", "rewardpool", nil, 0, u.pool)
 	add("slashed", "slashed", nil, 0, u.st.App.GetTotalSlashed())
 	for _, c := range u.coins {
